@@ -39,6 +39,13 @@ CLAIMED["C11"] = dict(
     note="Trusted: as C14. Each in-process run starts from emptied sync.Pools with GC off, so that parser-pool history of earlier runs in the same test process cannot leak into a later run (DESIGN 'Observations'). Data-race reports are sound but not replayable from a seed.",
 )
 
+CLAIMED["C07"] = dict(
+    design="5.2",
+    technique="deterministic simulation: the lint pipeline and the watch scan loop run in process under a simulated clock positioned around snooze deadlines; relational oracle (same files and instant, one control comment inserted) built from the real check instances' own statements",
+    text="For a generated rule set (with control comments already present, enable lists and locked blocks in the config, 0-2 simulated Prometheus servers) one reported problem is targeted; a disable / snooze / file/disable / file/snooze comment is inserted with one of the three spellings of the check, at one of the placements, with a snooze time 2 s - 400 d before or after the simulated instant in four timestamp formats. The report with the comment must equal the report without it minus exactly the statements of the targeted check instances on the targeted rule(s) (locked instances excepted), modulo the line shift; expired snoozes must change nothing. In watch mode the scan loop crosses the snooze deadline and each iteration must equal the one-shot result for its instant.",
+    note="Trusted: as C14. Which instance says what is obtained by asking pint's own check instances one by one in the uncommented run (validated against the pipeline's report on every run). Timeless clauses (disable, file/disable, locked) are exercised because every scenario needs them; the simulator's contribution is the clock and the watch loop. File-level comments against locked blocks are unspecified by the property and skipped. Syntax-error column ranges are excluded (parser-pool artefact, DESIGN 'Observations').",
+)
+
 NA = {
     "C01": "pure function of the file bytes (agreement of two acceptors): no schedule, clock, fault or peer for a simulator to own; deciding it is differential input generation, which this task's technique family excludes",
     "C02": "totality of a pure function of (bytes, parser mode): nothing time-, schedule- or fault-dependent in the anchored code",
